@@ -20,7 +20,8 @@ ID = "C12"
 TECHNIQUE = "explicit-state search over call/clock-advance histories on the real cache (sync, async, method), reference LRU with time stamps"
 RULE = (
     "all histories of length L over {call(k) k in (1, 1.0, True) [x receivers r1, r2, r1' == r1 "
-    "for methods] [+ keyword form for functions], advance clock by 1 or 4} for limit 1..3 x "
+    "for methods] [+ keyword form for functions] [+ re-entrant call(k) whose body calls the next "
+    "key, sync functions], advance clock by 1 or 4} for limit 1..3 x "
     "expiration {None, 2, 5} x {sync fn, async fn, sync method, async method}; non-trivial = the "
     "history contains a hit and (an eviction or an expiry or two ==-equal differently typed keys)"
 )
@@ -30,8 +31,8 @@ ASSUMPTIONS = [
     "positional and keyword call forms may or may not share an entry (unspecified)",
 ]
 BOUNDS = {
-    "quick": {"L": 6, "L_method": 5, "limits": [1, 2, 3]},
-    "thorough": {"L": 8, "L_method": 7, "limits": [1, 2, 3]},
+    "quick": {"L": 6, "L_sync": 5, "L_method": 5, "limits": [1, 2, 3]},
+    "thorough": {"L": 8, "L_sync": 7, "L_method": 7, "limits": [1, 2, 3]},
 }
 EXHAUSTIVE = {"quick": True, "thorough": True}
 SAMPLE_EVERY = {"quick": 40000, "thorough": 900000}
@@ -61,7 +62,7 @@ class Recv:
 
 def programs(tier: str):
     for variant in ("sync", "async", "msync", "masync"):
-        L = BOUNDS[tier]["L" if variant in ("sync", "async") else "L_method"]
+        L = BOUNDS[tier]["L_method" if variant in ("msync", "masync") else ("L_sync" if variant == "sync" else "L")]
         for limit in BOUNDS[tier]["limits"]:
             for expiration in (None, 2, 5):
                 yield {"variant": variant, "limit": limit, "expiration": expiration, "L": L}
@@ -76,6 +77,8 @@ def _ops(program) -> list[tuple]:
     if program["variant"] in ("sync", "async"):
         ops += [("call", None, k) for k in KEYS]
         ops += [("kw", None, 1)]
+        if program["variant"] == "sync":
+            ops += [("rec", None, 1), ("rec", None, 1.0)]  # call(k) whose body calls the next key
     else:
         ops += [("call", r, k) for r in ("r1", "r1p", "r2") for k in (1, 1.0)]
     if program["expiration"] is not None:
@@ -109,10 +112,18 @@ def execute(program, ch: Chooser) -> Result:  # noqa: C901, PLR0912, PLR0915
             last["p"] = p
             return p
 
+        nest: dict = {"key": None}
+        calls: dict = {}
+
         if variant == "sync":
 
             @cache(limit=limit, expiration=expiration)
             def fn(k):
+                inner = nest["key"]
+                if inner is not None:
+                    # memoised recursion: the body calls the cached function for another key
+                    nest["key"] = None
+                    calls["do"](("call", None, inner))
                 return make(None, k)
 
         elif variant == "async":
@@ -160,28 +171,36 @@ def execute(program, ch: Chooser) -> Result:  # noqa: C901, PLR0912, PLR0915
         hits = evictions = expiries = 0
         typed_collision = False
         seen_vals: set = set()
-        for _ in range(L):
-            op = ops[ch.choose(len(ops), "op")]
-            hist.append(list(op))
-            if op[0] == "adv":
-                vtime.advance(op[1])
-                continue
+        st = {"hits": 0, "evictions": 0, "expiries": 0, "typed": False, "nested_inv": 0}
+        NEXT = {1: 1.0, 1.0: True, True: 1}
+
+        def do_call(op, nested: bool = False) -> bool:  # noqa: C901, PLR0911, PLR0912
             _, r, k = op
-            key = (op[0], r, type(k).__name__, k)
+            kind = "call" if op[0] == "rec" else op[0]
+            key = (kind, r, type(k).__name__, k)
             argsig = (r, (type(k).__name__, k))
             if any(v == k and tv != type(k).__name__ for tv, v in seen_vals):
-                typed_collision = True
+                st["typed"] = True
             seen_vals.add((type(k).__name__, k))
+            # what the reference knows at the instant of the lookup
+            top = list(recency)[-limit:]
+            known = entry.get(key)
             before = counter["n"]
+            nested_before = st["nested_inv"]
             last.pop("p", None)
-            got = invoke(op)
-            invoked = counter["n"] - before
+            if op[0] == "rec":
+                nest["key"] = NEXT[k] if type(k) is not bool else 1
+            got = invoke(("call", r, k) if op[0] == "rec" else op)
+            nest["key"] = None
+            invoked = (counter["n"] - before) - (st["nested_inv"] - nested_before)
+            if nested:
+                st["nested_inv"] += counter["n"] - before
             now = vtime.now()
             fresh = last.pop("p", None)
             # (1) right key, not older than the expiration
             if not isinstance(got, Produced):
                 viols.append(viol("value", "not-produced", "an object made by the function", repr(got)))
-                break
+                return False
             if (got.recv, got.arg) != argsig:
                 viols.append(
                     viol(
@@ -192,46 +211,60 @@ def execute(program, ch: Chooser) -> Result:  # noqa: C901, PLR0912, PLR0915
                         history=hist,
                     )
                 )
-                break
+                return False
             age = now - got.t
             if expiration is not None and age > expiration:
                 viols.append(viol("expiry", "stale-served", f"age <= {expiration}", f"age {age}", history=hist))
-                break
+                return False
             if invoked > 1 or (invoked == 1 and got is not fresh):
                 viols.append(viol("value", "invoked-but-other-returned", "the fresh value", f"invocations={invoked}", history=hist))
-                break
+                return False
             # (2) must hit when among the `limit` most recently used keys and unexpired
-            top = list(recency)[-limit:]
-            if key in top and key in entry:
-                n0, t0 = entry[key]
+            if key in top and known is not None:
+                n0, t0 = known
                 unexpired = expiration is None or (now - t0) < expiration
                 if unexpired and invoked:
                     viols.append(
                         viol("must-hit", f"limit={limit}", "answered from the cache", "function invoked again", history=hist)
                     )
-                    break
+                    return False
                 if unexpired and not invoked and got.n != n0:
                     viols.append(viol("value", "superseded-served", f"invocation #{n0}", f"#{got.n}", history=hist))
-                    break
+                    return False
             if not invoked:
-                hits += 1
+                st["hits"] += 1
             else:
-                if key in entry and expiration is not None and (now - entry[key][1]) >= expiration:
-                    expiries += 1
-                elif key in entry:
-                    evictions += 1
+                if known is not None and expiration is not None and (now - known[1]) >= expiration:
+                    st["expiries"] += 1
+                elif known is not None:
+                    st["evictions"] += 1
                 entry[key] = (got.n, got.t)
             recency.pop(key, None)
             recency[key] = None
-            # (3) never more than `limit` entries alive
+            # (3) never more than `limit` entries alive (checked when the outermost call is over)
             got = fresh = None
+            if nested:
+                return True
             alive = sum(1 for w in produced if w() is not None)
             if alive > limit:
                 gc.collect()
                 alive = sum(1 for w in produced if w() is not None)
             if alive > limit:
                 viols.append(viol("retention", f"limit={limit}", f"<= {limit} results alive", alive, history=hist))
+                return False
+            return True
+
+        nested_ok = [True]
+        calls["do"] = lambda op: nested_ok.__setitem__(0, do_call(op, nested=True) and nested_ok[0])
+        for _ in range(L):
+            op = ops[ch.choose(len(ops), "op")]
+            hist.append(list(op))
+            if op[0] == "adv":
+                vtime.advance(op[1])
+                continue
+            if not do_call(op) or not nested_ok[0]:
                 break
+        hits, evictions, expiries, typed_collision = st["hits"], st["evictions"], st["expiries"], st["typed"]
         nontrivial = hits > 0 and (evictions > 0 or expiries > 0 or typed_collision)
         outcome = f"{variant}/hits={min(hits, 3)}/ev={min(evictions, 2)}/exp={min(expiries, 2)}/tc={typed_collision}"
         return Result(outcome, nontrivial, viols, {"history": hist, "invocations": counter["n"]})
